@@ -67,6 +67,7 @@ static const item_t ITEMS[] = {
     { { "-fX" }, E_STR, 0, "X", 0, 0, 0 },                      { { "-f", "Y" }, E_STR, 0, "Y", 0, 0, 0 },
     { { "--file=x y" }, E_STR, 0, "x y", 0, 0, 0 },             { { "--file", "Z" }, E_STR, 0, "Z", 0, 0, 0 },
     { { "--file=a=b" }, E_STR, 0, "a=b", 0, 0, 0 },             /* the value starts after the FIRST '=' */
+    { { "-f=X" }, E_STR, 0, "=X", 0, 0, 0 },                     /* everything after the letter is the value: a short option has no '=' spelling */
     { { "--file=" }, E_STR, 0, "", 0, 0, 0 },                   { { "-d", ":0" }, E_STR, 1, ":0", 0, 0, 0 },
     { { "--display=:1" }, E_STR, 1, ":1", 0, 0, 0 },
     { { "-t", "T1" }, E_ABST, 0, "T1", 0, 0, 0 },               { { "-tT2" }, E_ABST, 0, "T2", 0, 0, 0 },
@@ -462,6 +463,31 @@ static void e_case(uint64_t idx, void *ctx)
     mc_nontrivial();
     mc_outcome((uint64_t) got);
 }
+/* ---- tables of very many entries (around 255/256): an option far down the table is found by its letter and by its name; an unknown letter is one bad option */
+static const int BIGT[] = { 255, 256, 257, 300, 1000 };
+#define NBIGT ((int) (sizeof BIGT / sizeof BIGT[0]))
+static void g_desc(uint64_t idx, void *ctx, char *b, size_t n) { static const char *w[4] = { "[-q]", "[--last]", "[-Z] (no such letter)", "[--nosuch]" }; (void) ctx; snprintf(b, n, "table of %d entries (long-only booleans --o0000.., the last entry BOOL('q', \"last\", mask 0x04)): prog %s", BIGT[idx / 4], w[idx % 4]); }
+static void g_case(uint64_t idx, void *ctx)
+{
+    int n = BIGT[idx / 4], k = (int) (idx % 4); (void) ctx;
+    const char *shape = n < 256 ? "table of fewer than 256 entries" : "table of 256 or more entries"; mc_set_shape(shape);
+    spifopt_t *t = calloc((size_t) n, sizeof *t); char (*names)[8] = calloc((size_t) n, 8); static unsigned long other;
+    for (int i = 0; i < n - 1; i++) { snprintf(names[i], 8, "o%04d", i); spifopt_t e = SPIFOPT_BOOL_LONG(names[i], "d", other, 0x01); e.long_opt = (spif_charptr_t) names[i]; t[i] = e; }
+    { spifopt_t e = SPIFOPT_BOOL('q', "last", "d", d_flags, 0x04); t[n - 1] = e; }
+    d_flags = 0xf0; other = 0;
+    char *orig[2]; orig[0] = mc_heapstr("prog"); orig[1] = mc_heapstr(k == 0 ? "-q" : (k == 1 ? "--last" : (k == 2 ? "-Z" : "--nosuch")));
+    char *argv[3] = { orig[0], orig[1], NULL };
+    SPIFOPT_OPTLIST_SET(t); SPIFOPT_NUMOPTS_SET(n); SPIFOPT_ALLOWBAD_SET(9); SPIFOPT_BADOPTS_SET(0); SPIFOPT_HELPHANDLER_SET(help_stub);
+    spifopt_settings.flags = 0; g_diag = 0;
+    spifopt_parse(2, argv);
+    unsigned bad = (unsigned) SPIFOPT_BADOPTS_GET();
+    if (k < 2) { if (d_flags != 0xf4 || bad) FAIL("spifopt_parse", "model:option-far-down-the-table", shape, "entry %d of %d given as %s: flags 0x%lx (expected 0xf4), %u bad options", n, n, orig[1], d_flags, bad); }
+    else if (d_flags != 0xf0 || bad != 1 || other) FAIL("spifopt_parse", "model:bad-option-count", shape, "%s with a table of %d entries: flags 0x%lx, %u bad options (expected 1)", orig[1], n, d_flags, bad);
+    SPIFOPT_OPTLIST_SET(OPTS); SPIFOPT_NUMOPTS_SET(NOPT);
+    free(orig[0]); free(orig[1]); free(t); free(names);
+    mc_nontrivial();
+    mc_outcome(idx * 3 + bad);
+}
 int main(int argc, char **argv)
 {
     mc_init("C08", argc, argv);
@@ -475,6 +501,7 @@ int main(int argc, char **argv)
     for (g_k = 0; g_k <= N; g_k++) if (!mc_e2_level("hostile", g_k, mc_words_of_len(NTOK, g_k) * 4, b_case, b_desc, NULL)) break;
     mc_e2_level("bundles", 1, (uint64_t) NBUN * 8, c_case, c_desc, NULL);
     mc_e2_level("constructors", 1, 20 * 4 + 6 + 8 + 2, d_case, d_desc, NULL);
+    mc_e2_level("large_option_table", 1000, (uint64_t) NBIGT * 4, g_case, g_desc, NULL);
     mc_e2_level("long_argument_lists", 70000, (uint64_t) NLONGL * 3, e_case, e_desc, NULL);
     return mc_finish();
 }
